@@ -350,6 +350,8 @@ func main() {
 	if mode := os.Getenv("C19_CHILD"); mode != "" {
 		if mode == "conc" {
 			concChild()
+		} else if mode == "apih" {
+			apihChild()
 		} else if strings.HasPrefix(mode, "api-") {
 			apiChild(strings.TrimPrefix(mode, "api-"))
 		} else {
@@ -367,6 +369,7 @@ func main() {
 	chPF := vh.NewChannel("proxy.async.fetch", "real search.Ingestor.FetchAsyncSearchResult over scripted stores (NotFound / Unavailable / other error / answer with done flag per replica) vs SV.ProxyAsync.proxyFetch; non-trivial = >1 shard answering")
 	chPS := vh.NewChannel("proxy.async.start", "real search.Ingestor.StartAsyncSearch over scripted stores: replicas called and success vs SV.ProxyAsync.proxyStart")
 	orcPD := vh.NewOracle("proxy.async.done", "every shard has one replica that accepted the search: an answer exists only if every such replica answered, Done only if all are done, and every shard's IDs are in the merged result; non-trivial = a shard's replica is unreachable")
+	orcAPI := vh.NewOracle("async.api", "the proxy's gRPC handlers (StartAsyncSearch, FetchAsyncSearchResult with Size/Offset) over the real ingestor and a real store: the done result's ids (one document entry per id), histogram and aggregations equal ComplexSearch's for the same query; non-trivial = Size > 0")
 	orcSys := vh.NewOracle("async.system", "real FracManager+AsyncSearcher, process killed after the k-th atomic write and restarted: fetched result == synchronous SearchDocs (ids, histogram, aggregations); non-trivial = a crash point inside the run and >1 fraction")
 
 	var sysLines []string
@@ -386,7 +389,7 @@ func main() {
 				chPF.Add(l, runPFetch(l), true, "replay")
 			case "pstart":
 				chPS.Add(l, runPStart(l), true, "replay")
-			case "async", "asyncconc", "asyncapi":
+			case "async", "asyncconc", "asyncapi", "asyncapih":
 				sysLines = append(sysLines, l)
 			}
 		}
@@ -421,6 +424,16 @@ func main() {
 		genProxyAsync(gen{vh.NewRNG(o.Seed + 99)}, chPF, chPS, orcPD, rep, o.Pick(400, 5000))
 		sysLines = genSys(g, o)
 	}
+	var apihLines []string
+	for _, l := range sysLines {
+		if strings.HasPrefix(l, "asyncapih ") {
+			apihLines = append(apihLines, l)
+		}
+	}
+	if o.Replay == "" {
+		apihLines = genAPIH(gen{vh.NewRNG(o.Seed + 55)}, o)
+	}
+	runAPIH(apihLines, orcAPI, rep)
 	runSys(sysLines, orcSys, rep, o)
 	rep.AddChannel(chCodec, o.Driver)
 	rep.AddChannel(chFetch, o.Driver)
@@ -428,6 +441,7 @@ func main() {
 	rep.AddChannel(chPF, o.Driver)
 	rep.AddChannel(chPS, o.Driver)
 	rep.AddOracle(orcPD)
+	rep.AddOracle(orcAPI)
 	rep.AddOracle(orcSys)
 	rep.Write(o.Out)
 }
